@@ -33,7 +33,18 @@ Box: 'box' name=ID '{' items*=Item '}';
 Leaf: 'leaf' name=ID ('->' to=[Leaf])? ';';
 """
 MODEL = "model m box a { leaf x; leaf y -> x; box b { leaf z -> y; } } leaf w;"
-TARGETS = [('textX', 'dot', 'g.dot'), ('any', 'dot', 'm.dot'), ('textX', 'PlantUML', 'g.pu')]
+TARGETS = [('textX', 'dot', 'g.dot'), ('any', 'dot', 'm.dot'), ('textX', 'PlantUML', 'g.pu'),
+           ('any-multi-file', 'dot', 'm.dot')]
+# a model with an import: the model export then writes one cluster per file of the repository
+GRAMMAR2 = """
+Model: 'model' name=ID imports*=Import items+=Item;
+Import: 'import' importURI=STRING;
+Item: Box | Leaf;
+Box: 'box' name=ID '{' items*=Item '}';
+Leaf: 'leaf' name=ID ('->' to=[Leaf])? ';';
+"""
+MODEL2 = 'model m import "lib.mod" box a { leaf x -> p; leaf y -> x; } leaf w -> q;'
+LIB2 = 'model lib box l { leaf p; leaf q -> p; }'
 
 
 class InjectedOS(OSError):
@@ -103,11 +114,18 @@ def run_generator(ti, outdir, hook, overwrite=False):
     lang, target, outname = TARGETS[ti]
     gfile = os.path.join(outdir, 'g.tx')
     mfile = os.path.join(outdir, 'm.mod')
+    multi = lang == 'any-multi-file'
     with open(gfile, 'w') as f:
-        f.write(GRAMMAR)
+        f.write(GRAMMAR2 if multi else GRAMMAR)
     with open(mfile, 'w') as f:
-        f.write(MODEL)
+        f.write(MODEL2 if multi else MODEL)
     mm = metamodel_from_file(gfile)
+    if multi:
+        import textx.scoping.providers as P
+        with open(os.path.join(outdir, 'lib.mod'), 'w') as f:
+            f.write(LIB2)
+        mm.register_scope_providers({'*.*': P.PlainNameImportURI()})
+        lang = 'any'
     gen = generator_for_language_target(lang, target)
     real_open = builtins.open
 
@@ -148,15 +166,16 @@ def explore(item):
             i = n[0]
             n[0] += 1
             if fired:
-                # the condition persists (a full disk stays full): later writes
-                # of the same run fail too, e.g. the flush retried on close
-                if op == 'write':
+                # either the condition persists (a full disk stays full: later writes of the
+                # same run fail too, e.g. the flush retried on close) or it was transient
+                if op == 'write' and fired[0][3]:
                     raise InjectedOS('injected fault persists at %s #%d' % (op, i))
                 return
             if c.branch(z3.Bool('fail_%d' % i)):
                 # what kind of failure: an I/O error, another exception, an interrupt
                 k = 0 if c.branch(z3.Bool('io_error')) else (1 if c.branch(z3.Bool('other_exception')) else 2)
-                fired.append((i, op, k))
+                persistent = c.branch(z3.Bool('failure_persists'))
+                fired.append((i, op, k, persistent))
                 raise EXC[k]('injected fault at %s #%d' % (op, i))
         try:
             # scenario selector: generate into an empty directory, or regenerate
@@ -202,7 +221,7 @@ def explore(item):
         finally:
             _rmtree(d)
     outs = ctx.explore(path)
-    return {'target': '%s->%s' % TARGETS[ti][:2], 'paths': ctx.paths,
+    return {'target': '%s->%s' % TARGETS[ti][:2], 'ti': ti, 'paths': ctx.paths,
             'fault_points': max([o[2] for o in outs] + [0]),
             'bad': [[o[0], o[1]] for o in outs if o[0] in ('left', 'incomplete')],
             'ok': sum(1 for o in outs if o[0] == 'ok')}
@@ -211,7 +230,8 @@ def explore(item):
 def _norm(text):
     """the dot export uses id(obj) as node ids: compare modulo numbers"""
     import re
-    return re.sub(r'\d+', 'N', text)
+    # temporary directory names (cluster labels of multi-file models) and numbers
+    return re.sub(r'\d+', 'N', re.sub(r'c31r?_\w+', 'DIR', text))
 
 
 def _rmtree(d):
@@ -226,7 +246,7 @@ def _rmtree(d):
         pass
 
 
-def replay_fault(ti, index, regenerate=False, small_buffers=True, kind=0):
+def replay_fault(ti, index, regenerate=False, small_buffers=True, kind=0, persistent=True):
     SMALL_BUFFERS[0] = small_buffers
     d = tempfile.mkdtemp(prefix='c31r_')
     n = [0]
@@ -238,7 +258,7 @@ def replay_fault(ti, index, regenerate=False, small_buffers=True, kind=0):
         n[0] += 1
         if i == index:
             raise EXC[kind]('injected fault')
-        if i > index and op == 'write':
+        if i > index and op == 'write' and persistent:
             raise InjectedOS('injected fault persists')
     try:
         try:
@@ -305,15 +325,17 @@ def main():
                 chk.known_hit(KNOWN, '%s: fault at %s leaves %s' % (r['target'], d['fault'], d))
             elif not reported:
                 reported = True
-                ti = [i for i, t in enumerate(TARGETS) if '%s->%s' % t[:2] == r['target']][0]
+                ti = r['ti']
                 kind_ = d['fault'][2] if len(d['fault']) > 2 else 0
-                bad, detail = replay_fault(ti, d['fault'][0], d.get('regenerate', False), d.get('small_buffers', True), kind_)
+                pers_ = d['fault'][3] if len(d['fault']) > 3 else True
+                bad, detail = replay_fault(ti, d['fault'][0], d.get('regenerate', False), d.get('small_buffers', True),
+                                           kind_, pers_)
                 chk.cov['traces_validated_against_impl'] += 1
                 if bad or kind == 'incomplete':
                     chk.violation('%s: injected failure at %s #%d: %s (%d of %d bytes)' % (
                         r['target'], d['fault'][1], d['fault'][0], kind, d['size'], d['full']),
                         {'target_index': ti, 'fault_index': d['fault'][0], 'regenerate': d.get('regenerate', False),
-                         'small_buffers': d.get('small_buffers', True), 'exception_kind': kind_})
+                         'small_buffers': d.get('small_buffers', True), 'exception_kind': kind_, 'persistent': pers_})
         chk.sample({'generator': r['target'], 'fault_points': r['fault_points'], 'clean_after_fault': r['ok'],
                     'file_left_or_incomplete': len(r['bad'])})
     chk.cov['paths_explored'] = paths
@@ -326,4 +348,4 @@ def main():
 
 def replay(data):
     return replay_fault(data['target_index'], data['fault_index'], data.get('regenerate', False),
-                        data.get('small_buffers', True), data.get('exception_kind', 0))
+                        data.get('small_buffers', True), data.get('exception_kind', 0), data.get('persistent', True))
